@@ -117,7 +117,9 @@ def tlc_stats(path):
 def run_tlc(module, cfg, out, workers=8, env=None, timeout=1800, deque=False, extra="", simulate=None):
     """Run TLC on spec/<module>.tla with spec/<cfg>; output to file `out`. Returns stats dict."""
     md = out + ".md"
-    jopts = "-Xss1g"
+    tmpd = out + ".tmp"
+    os.makedirs(tmpd, exist_ok=True)
+    jopts = "-Xss1g -Djava.io.tmpdir=" + tmpd
     if deque:
         jopts += " -Dtlc2.tool.queue.IStateQueue=StateDeque"
     e = {"JAVA_TOOL_OPTIONS": jopts}
@@ -130,7 +132,7 @@ def run_tlc(module, cfg, out, workers=8, env=None, timeout=1800, deque=False, ex
            % (timeout, workers, sim, md, extra, cfg, module))
     with open(out, "w") as f:
         rc, _, dt = sh(cmd, cwd=SPEC, env=e, stdout=f, timeout=timeout + 30)
-    subprocess.run(["rm", "-rf", md])
+    subprocess.run(["rm", "-rf", md, tmpd])
     st = tlc_stats(out)
     st["rc"] = rc
     st["wall_s"] = round(dt, 1)
